@@ -402,12 +402,12 @@ func (c *StructCode) lastAnonymousFieldCode(firstField *Opcode) *Opcode {
 }
 
 // lastFieldOfAnonymous returns the last field operation reached from code.
-// A StructHead or StructField operation without a value is the wrapper of an embedded struct:
+// A StructHead or StructField operation with the anonymous key flag is the wrapper of an embedded struct:
 // its next operation is the first field of that struct, also when the embedded struct
 // is the last field of another embedded struct.
 func lastFieldOfAnonymous(code *Opcode) *Opcode {
 	for {
-		for code.Op == OpStructHead || code.Op == OpStructField {
+		for (code.Op == OpStructHead || code.Op == OpStructField) && (code.Flags&AnonymousKeyFlags) != 0 {
 			code = code.Next
 		}
 		if code.NextField == nil {
